@@ -126,6 +126,16 @@ func (f *Field) sortArgs() (errors []error) {
 				}
 			}
 		}
+		if st, _ := f.ConType.(*uuSchema); st != nil {
+			// The fields of __schema, which is not an *Object.
+			if fd := st.fields.get(f.Name); fd != nil {
+				for _, av := range f.Args {
+					if fd.getArg(av.Arg) == nil {
+						errors = append(errors, valError(av.line, av.col, "%s is not an argument to %s", av.Arg, f.Name))
+					}
+				}
+			}
+		}
 		if ot, _ := f.ConType.(*Object); ot != nil {
 			if fd := ot.fields.get(f.Name); fd != nil {
 				// Always check the names. Comparing counts only misses an
